@@ -391,3 +391,275 @@ func verifControlTickerZero(d time.Duration) *time.Ticker {
 	return t
 }
 `
+
+// CLOCK-ORIGIN: a timestamp that is compared with clock readings never starts from a constant.
+func ruleClockOrigin() check.Rule {
+	return check.Rule{
+		Name:        "CLOCK-ORIGIN",
+		NeedControl: true,
+		Doc:         "a variable of an armed package that is assigned clock readings (the result of a function named Now*, of package time or of the repository's clock package, possibly through a local) and is declared with a constant value is not used in an arithmetic comparison with a clock reading: the clock's origin is arbitrary (monotonic nanoseconds since process start), so `last + interval < now` with last = 0 measures the age of the process — ThrottleTime drops every value until the process is older than the interval",
+		Run: func(c *check.Ctx) {
+			m := c.M
+			n := 0
+			for _, p := range m.Pkgs {
+				armed := c.ArmedPkg(p.PkgPath)
+				info := p.TypesInfo
+				isClockCall := func(e ast.Expr) bool {
+					found := false
+					ast.Inspect(e, func(x ast.Node) bool {
+						if call, ok := x.(*ast.CallExpr); ok {
+							if fn := model.Callee(info, call); fn != nil && strings.HasPrefix(fn.Name(), "Now") && fn.Pkg() != nil && (fn.Pkg().Path() == "time" || strings.HasSuffix(fn.Pkg().Path(), "/xtime")) {
+								found = true
+							}
+						}
+						return !found
+					})
+					return found
+				}
+				var clockDerived func(e ast.Expr, depth int) bool
+				clockDerived = func(e ast.Expr, depth int) bool {
+					if isClockCall(e) {
+						return true
+					}
+					if depth == 0 {
+						return false
+					}
+					found := false
+					ast.Inspect(e, func(x ast.Node) bool {
+						if id, ok := x.(*ast.Ident); ok && !found {
+							if v, ok := objOf(info, id).(*types.Var); ok {
+								for _, d := range m.Defs[v] {
+									if d.Expr != nil && isClockCall(d.Expr) {
+										found = true
+									}
+								}
+							}
+						}
+						return !found
+					})
+					return found
+				}
+				for o, defs := range m.Defs {
+					v, ok := o.(*types.Var)
+					if !ok || v.IsField() || v.Pkg() != p.Types || len(defs) < 2 {
+						continue
+					}
+					var constDef *model.DefSite
+					clockDef := false
+					for i := range defs {
+						d := &defs[i]
+						if d.Expr == nil {
+							continue
+						}
+						if tv, ok := info.Types[d.Expr]; ok && tv.Value != nil {
+							constDef = d
+						} else if clockDerived(d.Expr, 1) {
+							clockDef = true
+						}
+					}
+					if constDef == nil || !clockDef {
+						continue
+					}
+					// used in a comparison together with a clock reading
+					var cmp *ast.BinaryExpr
+					for _, f := range p.Syntax {
+						if !(f.Pos() <= v.Pos() && v.Pos() < f.End()) {
+							continue
+						}
+						ast.Inspect(f, func(x ast.Node) bool {
+							be, ok := x.(*ast.BinaryExpr)
+							if !ok || cmp != nil {
+								return cmp == nil
+							}
+							switch be.Op {
+							case token.LSS, token.GTR, token.LEQ, token.GEQ:
+							default:
+								return true
+							}
+							uses := false
+							ast.Inspect(be, func(z ast.Node) bool {
+								if id, ok := z.(*ast.Ident); ok && objOf(info, id) == o {
+									uses = true
+								}
+								return !uses
+							})
+							if uses && (clockDerived(be.X, 1) || clockDerived(be.Y, 1)) {
+								cmp = be
+							}
+							return cmp == nil
+						})
+					}
+					if cmp == nil {
+						continue
+					}
+					n++
+					key := fmt.Sprintf("%s.%s/clock-origin-%s", model.ShortPkg(p.PkgPath), enclosingDeclName(m, p, constDef.Node), v.Name())
+					c.Report(armed, key, constDef.Pos, "%s starts from the constant %s and is compared with clock readings (%s): the clock's origin is arbitrary, so the first comparison measures the age of the process instead of the time since the last event", v.Name(), types.ExprString(constDef.Expr), c.Prog.Rel(cmp.Pos()))
+				}
+			}
+			c.Inc("constant_started_timestamps", n)
+		},
+	}
+}
+
+const controlsClockOrigin = `
+func verifControlClockOrigin(interval time.Duration) func() bool {
+	lastAt := int64(0)
+	return func() bool {
+		now := time.Now().UnixNano()
+		if lastAt+int64(interval) < now {
+			lastAt = now
+			return true
+		}
+		return false
+	}
+}
+`
+
+// SWAP-DELIVER-COUPLED: buffers taken by concurrent flushers are delivered in the order they were taken.
+func ruleSwapDeliverCoupled() check.Rule {
+	return check.Rule{
+		Name:        "SWAP-DELIVER-COUPLED",
+		NeedControl: true,
+		Doc:         "a function of a subscribe closure that takes the operator's buffer out under a lock (tmp := buffer; buffer = fresh) and sends it to the destination after that lock was released, and that runs in two possibly-concurrent contexts (the source's callbacks and a ticker's, or two sources'), sends it under a second lock that was already held when the buffer was taken: otherwise flusher A takes buffer 1, flusher B takes buffer 2 and delivers it first — the buffers come out in another order than their values went in (BufferWithTimeOrCount: the count-triggered flush on the source's goroutine against the time-triggered flush on the ticker's)",
+		Run: func(c *check.Ctx) {
+			m := c.M
+			h := newHeldDB(m)
+			n := 0
+			for _, sc := range m.SCs {
+				if !c.Armed(sc) && !check.IsControlName(sc.Name) {
+					continue
+				}
+				info := sc.Pkg.TypesInfo
+				ast.Inspect(sc.Lit.Body, func(x ast.Node) bool {
+					lit, ok := x.(*ast.FuncLit)
+					if !ok || lit == sc.Lit {
+						return true
+					}
+					// tmp := V … V = fresh, V a variable of the subscribe closure declared outside lit
+					var take *ast.AssignStmt
+					var tmp, shared types.Object
+					for _, st := range lit.Body.List {
+						as, ok := st.(*ast.AssignStmt)
+						if !ok || len(as.Lhs) != 1 || len(as.Rhs) != 1 {
+							continue
+						}
+						l, lok := as.Lhs[0].(*ast.Ident)
+						r, rok := ast.Unparen(as.Rhs[0]).(*ast.Ident)
+						if as.Tok == token.DEFINE && lok && rok {
+							if v, ok := objOf(info, r).(*types.Var); ok && !v.IsField() && !(v.Pos() >= lit.Pos() && v.Pos() < lit.End()) {
+								if _, isSlice := v.Type().Underlying().(*types.Slice); isSlice {
+									take, tmp, shared = as, objOf(info, l), v
+								}
+							}
+						}
+					}
+					if take == nil {
+						return true
+					}
+					reset := false
+					for _, st := range lit.Body.List {
+						if as, ok := st.(*ast.AssignStmt); ok && as.Pos() > take.Pos() && len(as.Lhs) == 1 {
+							if l, ok := as.Lhs[0].(*ast.Ident); ok && objOf(info, l) == shared {
+								reset = true
+							}
+						}
+					}
+					if !reset {
+						return true
+					}
+					// the delivery of tmp
+					var send *ast.CallExpr
+					ast.Inspect(lit.Body, func(y ast.Node) bool {
+						call, ok := y.(*ast.CallExpr)
+						if !ok || send != nil {
+							return send == nil
+						}
+						if name, isObs := m.Obj.ObserverMethods[model.Callee(info, call)]; isObs && notifKind(name) == 0 {
+							for _, a := range call.Args {
+								if id, ok := ast.Unparen(a).(*ast.Ident); ok && objOf(info, id) == tmp {
+									send = call
+								}
+							}
+						}
+						return send == nil
+					})
+					if send == nil {
+						return true
+					}
+					heldAtTake := h.heldAt(sc.Pkg, take)
+					heldAtSend := h.heldAt(sc.Pkg, send)
+					if len(heldAtTake) == 0 {
+						return true // not a locked hand-over: other rules speak about unprotected state
+					}
+					// runs in two possibly-concurrent contexts?
+					concurrent := false
+					places := sc.FnPlaces[ast.Node(lit)]
+					for i := range places {
+						for j := i; j < len(places); j++ {
+							A := placeOfAccess(places[i], take)
+							B := placeOfAccess(places[j], take)
+							if i == j && !model.Multi(places[i].Ctx) {
+								continue
+							}
+							if conc, _ := model.MayRunConcurrently(A, B); conc {
+								concurrent = true
+							}
+						}
+					}
+					if !concurrent {
+						return true
+					}
+					n++
+					key := fmt.Sprintf("%s/swap-deliver-%s", sc, shared.Name())
+					coupled := false
+					for k := range heldAtSend {
+						if heldAtTake[k] {
+							coupled = true // still the same lock, or a delivery lock that was held when the buffer was taken
+						}
+					}
+					if coupled {
+						if c.Armed(sc) {
+							c.OK(key, send.Pos(), "delivered under a lock that was held when the buffer was taken")
+						}
+					} else {
+						c.Report(c.Armed(sc), key, send.Pos(), "%s is taken under %s and delivered after that lock was released, under no lock that was held when it was taken, by a function that runs in possibly-concurrent contexts: a buffer taken later can be delivered first", shared.Name(), heldAtTake)
+					}
+					return true
+				})
+			}
+			c.Inc("concurrent_swap_deliver_sites", n)
+		},
+	}
+}
+
+const controlsSwapDeliver = `
+func verifControlSwapDeliver[T any](tick Observable[int64]) func(Observable[T]) Observable[[]T] {
+	return func(source Observable[T]) Observable[[]T] {
+		return NewObservableWithContext(func(subscriberCtx context.Context, destination Observer[[]T]) Teardown {
+			var mu sync.Mutex
+			buffer := []T{}
+			flush := func(ctx context.Context) {
+				mu.Lock()
+				tmp := buffer
+				buffer = []T{}
+				mu.Unlock()
+				destination.NextWithContext(ctx, tmp)
+			}
+			subscriptions := NewSubscription(nil)
+			subscriptions.AddUnsubscribable(source.SubscribeWithContext(subscriberCtx, NewObserverWithContext(
+				func(ctx context.Context, v T) {
+					mu.Lock()
+					buffer = append(buffer, v)
+					mu.Unlock()
+					flush(ctx)
+				},
+				destination.ErrorWithContext, destination.CompleteWithContext)))
+			subscriptions.AddUnsubscribable(tick.SubscribeWithContext(subscriberCtx, NewObserverWithContext(
+				func(ctx context.Context, _ int64) { flush(ctx) },
+				destination.ErrorWithContext, destination.CompleteWithContext)))
+			return subscriptions.Unsubscribe
+		})
+	}
+}
+`
